@@ -97,6 +97,20 @@ func (t *runTarget) Evaluate(engine runner.Engine) error {
 		}
 	}
 
+	// A dependency the target had when it last ran and no longer has - a source file matched
+	// by a glob that has since been deleted, for instance - is a change as well.
+	var removedDeps []string
+	for label := range info.Dependencies {
+		if _, ok := depData[label]; !ok {
+			removedDeps = append(removedDeps, label)
+		}
+	}
+	if len(removedDeps) != 0 {
+		sort.Strings(removedDeps)
+		outOfDateDeps = append(outOfDateDeps, removedDeps...)
+		depsUpToDate = false
+	}
+
 	// Check whether the target is up-to-date.
 	upToDate, reason, diff, err := t.target.upToDate()
 	if err != nil {
